@@ -36,4 +36,4 @@ MUTATIONS = [
 # a genuine defect (demonstrated, /tmp/strengthen4/G13/FINDING_1.md)   # pending finding
 def run(ctx):
     return [sC48.rule_K1(ctx), sC48.rule_K1b(ctx), sC48.rule_filehash(ctx), sC48.rule_fp_thread(ctx), sC48.rule_K2(ctx), sC48.rule_K3(ctx),
-            sC48.rule_seen_guard(ctx), sC48.rule_dep_flow(ctx)]
+            sC48.rule_seen_guard(ctx), sC48.rule_dep_flow(ctx), sC48.rule_fp_final(ctx)]
